@@ -160,10 +160,63 @@ def run(chk):
         chk.extra['worst_apply_error'] = float('%.3e' % worst_apply)
         chk.extra['worst_saved_terms_residual'] = float('%.3e' % worst_terms)
         chk.samples = [scs[0].lines[:4] + ['...'], scs[-1].lines[2][:200]]
+        if not chk.violations:
+            smooth_offgrid(chk, exe, rng, 1 if chk.tier == 'quick' else 8)
     finally:
         shutil.rmtree(tmpdir, ignore_errors=True)
     if broken and not chk.violations:
         chk.violation('obligation', 'proof/correspondence obligations that no longer check:\n' + '\n'.join(broken[:30]), nofail=True)
+
+
+def smooth_offgrid(chk, exe, rng, reps):
+    """an error network whose terms are affine in frequency (the directivity / leakage block passes through zero at a calibration
+    point, the other blocks are constant): the error terms are then affine too, rational interpolation reproduces them, and a device
+    measured *between* the calibration frequencies is recovered as well as on them"""
+    import copy
+    for _ in range(reps):
+        for typ in calsim.TYPES:
+            n = 2 if typ in ('T16', 'U16') else rng.choice([1, 2])
+            fcal = [1e9 * (k + 1) for k in range(5)]
+            fall = [1e9 * (1 + 0.5 * k) for k in range(9)]
+            proto = calsim.ErrorBox(rng, typ, n, n, 1)
+            f0 = rng.choice(fcal[1:4])
+
+            def box_at(fs):
+                b = copy.copy(proto)
+                b.nf = len(fs)
+                b.boxes = []
+                for f in fs:
+                    sysl = []
+                    for (El, Er, Et, Em) in proto.boxes[0]:
+                        D = El if np.abs(El).max() > 0 else np.eye(n) * complex(0.05, 0.02)
+                        sysl.append((D * 3.0 * (f - f0) / 1e9, Er, Et, Em))
+                    b.boxes.append(sysl)
+                return b
+            A = calsim.Scenario(rng, typ, n, n, 5, form=rng.choice(['m', 'ab']), fvec=fcal, box=box_at(fcal)).begin()
+            A.solt().solve().add_calibration(b'c')
+            B = calsim.Scenario(rng, typ, n, n, 9, form=A.form, fvec=fall, box=box_at(fall))
+            B.others = A.others
+            dut = B.random_dut()
+            lines = A.lines + [B.apply_line(0, dut), 'cal free 0', 'cal live']
+            out, rc, err = vlib.run_lines(exe, lines, timeout=600)
+            chk.evaluations += 1
+            tag = '%s %dx%d %s, error terms affine in frequency with a zero at %.0e Hz' % (typ, n, n, A.form, f0)
+            if rc != 0 or len(out) != len(lines):
+                chk.violation('sanitizer-offgrid', '%s: crash / sanitizer report:\n%s' % (tag, err[-1200:]), lines[:len(out) + 1])
+                return
+            bad = [(l, o) for l, o in zip(lines, out) if not o.startswith('ok')]
+            if bad:
+                chk.violation('offgrid-refused', '%s: `%s` -> %s' % (tag, bad[0][0][:80], bad[0][1][:80]), lines)
+                return
+            ok, S = calsim.parse_apply(out[-3], n)
+            errs = [float(np.abs(S[f] - dut[f]).max()) for f in range(9)]
+            if not max(errs) <= 1e-7:
+                k = int(np.argmax(errs))
+                chk.violation('apply-offgrid', '%s: a device measured at %.2e Hz (%s the calibration points) is corrected with error %.3e' % (
+                    tag, fall[k], 'between' if k % 2 else 'on one of', errs[k]), lines[:-2])
+                return
+            chk.count('apply_offgrid_ok')
+            chk.distinct.add(('offgrid', typ, n, f0))
 
 
 def replay(chk, path):
